@@ -301,6 +301,15 @@ func (h *Handler) ServeFastHTTP(ctx *fasthttp.RequestCtx) {
 	}
 	request := make([]byte, len(body))
 	copy(request, body)
+	// a panic that escapes Handle (an IO plugin) must cost this request only: fasthttp
+	// does not recover panics of its handlers, the process would go down
+	defer func() {
+		if e := recover(); e != nil {
+			h.onFastHTTPError(ctx, core.NewPanicError(e))
+			ctx.Response.Reset()
+			ctx.SetStatusCode(fasthttp.StatusInternalServerError)
+		}
+	}()
 	result, err := h.Service.Handle(core.WithContext(context.Background(), serviceContext), request)
 	if err != nil {
 		h.onFastHTTPError(ctx, err)
